@@ -556,6 +556,17 @@ def run(tier):
 def replay(path):
     rec = json.load(open(path))["replay"]
     c = vf.Check("C01", "quick")
+    if rec.get("kind") == "memcheck":
+        import subprocess
+        exe = vf.build_harness("model_run", "plain")
+        vin, vout = os.path.join(c.run_dir, "replay.in.ndjson"), os.path.join(c.run_dir, "replay.out.ndjson")
+        vf.write_ndjson(vin, [{"id": "r", "entry": "xml_buffer", "text": rec["xml"], "structure": False, "no_fork": True}])
+        p = subprocess.run(["valgrind", "--error-exitcode=9", "--track-origins=yes", exe, vin, vout], stdout=subprocess.PIPE, stderr=subprocess.STDOUT, text=True, errors="replace")
+        print(p.stdout[-4000:])
+        return 1
+    if rec.get("kind") == "scan" or rec.get("entry") == "scan_run":
+        import lexconf
+        return lexconf.replay(c, rec)
     j = dict(rec["job"], id="r")
     r = vf.run_jobs([j], c.run_dir, variant="asan")["r"]
     print(json.dumps({k: r.get(k) for k in ("outcome", "sig", "main", "stderr", "sanitizer")}, indent=1)[:4000])
